@@ -10,36 +10,42 @@ From Coq Require Import List NArith Bool String.
 Import ListNotations.
 Require Import UPV.Model.Kind UPV.Model.Factory UPV.Gen.Gen_Kind UPV.Gen.Gen_Engines UPV.Corr.Corr_C32.
 
+(* kinds are sent as (bitmask of feature numbers, declared version): the harness sums 2^i over the features *)
+Definition mkind := (N * option N)%type.
+Definition mkm (k : mkind) : kind := {| k_feats := fst k; k_ver := snd k |}.
+
 Record ccase := {
-  cc_engine : string;
+  cc_engine : nat;                  (* index in the harness's table of engine names (strings are slow to parse) *)
   cc_ck : N;
-  cc_in : skind;
-  cc_out : skind;
-  cc_declared : skind
+  cc_in : mkind;
+  cc_out : mkind;
+  cc_declared : mkind
 }.
 
 Definition is_ok_true (r : res bool) : bool := match r with Ok true => true | _ => false end.
 
-Definition cc_parts (c : ccase) : list bool :=
-  match lookup (cc_engine c) builtin_engines with
+Definition name_at (names : list string) (i : nat) : string := nth i names EmptyString.
+
+Definition cc_parts (names : list string) (c : ccase) : list bool :=
+  match lookup (name_at names (cc_engine c)) builtin_engines with
   | None => [false]
   | Some e =>
       [ is_mode e COMPILER && inN (cc_ck c) (e_compilations e);
-        is_ok_true (supports T e (mk (cc_in c)));                                       (* the problem was in the supported kind *)
-        rres_ok (run_resulting T (e_resulting e) (mk (cc_in c))) (RR (cc_declared c));   (* translation = executed declaration *)
-        is_ok_true (le T (mk (cc_out c)) (mk (cc_declared c))) ]                        (* kind(compiled) <= declared *)
+        is_ok_true (supports T e (mkm (cc_in c)));                                       (* the problem was in the supported kind *)
+        match run_resulting T (e_resulting e) (mkm (cc_in c)) with Ok k => kind_eqb k (mkm (cc_declared c)) | _ => false end;   (* translation = executed declaration *)
+        is_ok_true (le T (mkm (cc_out c)) (mkm (cc_declared c))) ]                        (* kind(compiled) <= declared *)
   end.
-Definition cc_ok (c : ccase) : bool := forallb (fun b => b) (cc_parts c).
+Definition cc_ok (names : list string) (c : ccase) : bool := forallb (fun b => b) (cc_parts names c).
 
 Inductive pres :=
-| PBuilt (names : list string) (actual : list skind) (final : skind)   (* built and run stage by stage *)
-| PChosen (names : list string)                                        (* built, not run *)
+| PBuilt (names : list nat) (actual : list mkind) (final : mkind)   (* built and run stage by stage *)
+| PChosen (names : list nat)                                           (* built, not run *)
 | PNotBuilt (s : sobs).
 Record pcase := {
   pc_registered : list string;
   pc_prefs : list string;
   pc_cks : list N;
-  pc_kind : skind;
+  pc_kind : mkind;
   pc_obs : pres
 }.
 
@@ -53,15 +59,15 @@ Fixpoint zip_all {A B} (f : A -> B -> bool) (a : list A) (b : list B) : bool :=
 Definition pc_reg (c : pcase) : registry :=
   filter (fun ne => existsb (String.eqb (fst ne)) (pc_registered c)) builtin_engines.
 
-Definition pc_parts (c : pcase) : list bool :=
-  match pipeline T (pc_reg c) (pc_prefs c) None (pc_cks c) (mk (pc_kind c)), pc_obs c with
-  | Pipe steps final, PBuilt names actual afinal =>
-      [ list_eqb String.eqb (map (fun s => fst (fst s)) steps) names;                                  (* same compilers chosen *)
-        zip_all (fun a st => is_ok_true (le T (mk a) (snd st))) actual steps;                          (* actual_i <= declared_i *)
-        is_ok_true (le T (mk afinal) final);                                                           (* output <= declared output *)
-        zip_all (fun a st => is_ok_true (supports T (snd (fst st)) (mk a))) actual steps ]             (* every stage accepts its input *)
-  | Pipe steps _, PChosen names => [list_eqb String.eqb (map (fun s => fst (fst s)) steps) names]
+Definition pc_parts (names : list string) (c : pcase) : list bool :=
+  match pipeline T (pc_reg c) (pc_prefs c) None (pc_cks c) (mkm (pc_kind c)), pc_obs c with
+  | Pipe steps final, PBuilt chosen actual afinal =>
+      [ list_eqb String.eqb (map (fun s => fst (fst s)) steps) (map (name_at names) chosen);                               (* same compilers chosen *)
+        zip_all (fun a st => is_ok_true (le T (mkm a) (snd st))) actual steps;                          (* actual_i <= declared_i *)
+        is_ok_true (le T (mkm afinal) final);                                                           (* output <= declared output *)
+        zip_all (fun a st => is_ok_true (supports T (snd (fst st)) (mkm a))) actual steps ]             (* every stage accepts its input *)
+  | Pipe steps _, PChosen chosen => [list_eqb String.eqb (map (fun s => fst (fst s)) steps) (map (name_at names) chosen)]
   | PipeFail s, PNotBuilt o => [sel_matches s o]
   | _, _ => [false]
   end.
-Definition pc_ok (c : pcase) : bool := forallb (fun b => b) (pc_parts c).
+Definition pc_ok (names : list string) (c : pcase) : bool := forallb (fun b => b) (pc_parts names c).
